@@ -131,6 +131,10 @@ func vc14rtClasses(w *vc14rtWorld, cl map[string]bool) {
 			cl["zero-valued-key"] = true
 		}
 
+		if d.Linked.Zone() != "" || slices.ContainsFunc(d.Ded, func(ip netip.Addr) bool { return ip.Zone() != "" }) {
+			cl["zoned-ipv6-key"] = true
+		}
+
 		if utf8.RuneCountInString(d.Name) == agd.MaxDeviceNameRuneLen {
 			cl["name-at-limit"] = true
 		}
@@ -226,7 +230,7 @@ func TestVerifC14rtRoundTrip(t *testing.T) {
 		"schedule-non-utc-zone", "schedule-none", "auth-bcrypt", "auth-allow", "auth-disabled", "auth-doh-only", "custom-rules",
 		"linked-ip-v6", "dedicated-ips", "human-id", "version-mismatch", "deleted-profile",
 		"used-before-store", "used-before-store-with-domain-rules", "unused-before-store", "device-used-before-store",
-		"near-miss-twin-profile", "near-miss-twin-device", "second-generation-roundtrip", "zero-valued-key", "name-at-limit")
+		"near-miss-twin-profile", "near-miss-twin-device", "second-generation-roundtrip", "zero-valued-key", "name-at-limit", "zoned-ipv6-key")
 	st.Finish(t)
 	vc14rtNeedZones(t)
 
